@@ -398,7 +398,10 @@ func (c *Caller) AddBg(cmd string, handler func(client *Client, event Event)) (c
 func (c *Caller) AddTmp(cmd string, deadline time.Duration, handler func(client *Client, event Event) bool) (cuid string, done chan struct{}) {
 	done = make(chan struct{})
 
-	cuid = c.sregister(false, true, cmd, HandlerFunc(func(client *Client, event Event) {
+	// The handler reads cuid; assign it before the mutex is released, so that
+	// the assignment happens before any execution of the handler.
+	c.mu.Lock()
+	cuid = c.register(false, true, cmd, HandlerFunc(func(client *Client, event Event) {
 		remove := handler(client, event)
 		if remove {
 			if ok := c.Remove(cuid); ok {
@@ -406,6 +409,7 @@ func (c *Caller) AddTmp(cmd string, deadline time.Duration, handler func(client 
 			}
 		}
 	}))
+	c.mu.Unlock()
 
 	if deadline > 0 {
 		go func() {
